@@ -211,8 +211,7 @@ func ruleStateless(w *World, r *Report, fn *ssa.Function) {
 		if base, okf := loadOfField(lk.X, "Config", "OperatorMap"); okf && base == ssa.Value(cParam) {
 			nonNil := false
 			for _, f := range factsAt(ret.Block()) {
-				if bo, ok := f.Cond.(*ssa.BinOp); ok && bo.X == ssa.Value(lk) && isNilConst(bo.Y) &&
-					((bo.Op == token.NEQ && f.Truth) || (bo.Op == token.EQL && !f.Truth)) {
+				if x, isNil, ok := factIsNil(f); ok && x == ssa.Value(lk) && !isNil {
 					nonNil = true
 				}
 			}
@@ -244,8 +243,7 @@ func ruleFoldOK(w *World, r *Report, call *ssa.Call) {
 	}
 	errNilAt := func(b *ssa.BasicBlock) bool {
 		for _, f := range factsAt(b) {
-			if bo, ok := f.Cond.(*ssa.BinOp); ok && bo.X == errVal && isNilConst(bo.Y) &&
-				((bo.Op == token.NEQ && !f.Truth) || (bo.Op == token.EQL && f.Truth)) {
+			if x, isNil, ok := factIsNil(f); ok && x == errVal && isNil {
 				return true
 			}
 		}
@@ -257,12 +255,12 @@ func ruleFoldOK(w *World, r *Report, call *ssa.Call) {
 		if !ok {
 			continue
 		}
-		bo, ok := iff.Cond.(*ssa.BinOp)
-		if !ok || bo.X != errVal || !isNilConst(bo.Y) {
+		x, isEq, ok := nilCompare(iff.Cond)
+		if !ok || x != errVal {
 			continue
 		}
 		errEdge := 0
-		if bo.Op == token.EQL {
+		if isEq {
 			errEdge = 1
 		}
 		eb := b.Succs[errEdge]
